@@ -1052,3 +1052,37 @@ func VerifC20OptionCombos() {
 		vassert(err == nil, "each of the options alone, and the valid combinations, are accepted")
 	}
 }
+
+// A workflow cycle that is closed by a data-only input (a waits for b's value, b for a's completion) is a cycle in
+// all-predecessor mode like any other: Compile rejects it; the same shape without the back edge, and a data-only input
+// that closes no cycle, are accepted.
+func VerifC20DataOnlyCycle() {
+	ctx := context.Background()
+	vcfg("fifo", 1)
+	shape := vchoose("shape", 3)
+	wf := NewWorkflow[map[string]any, map[string]any]()
+	a := wf.AddLambdaNode("a", vNode("a", nil))
+	a.AddInput(START, ToField("s"))
+	wf.AddLambdaNode("b", vNode("b", nil)).AddInput("a", ToField("fromA"))
+	c := wf.AddLambdaNode("c", vNode("c", nil))
+	c.AddInput("b", ToField("fromB"))
+	switch shape {
+	case 0: // b's value flows back into a over a data-only input: a -> b -(data)-> a
+		a.AddInputWithOptions("b", []*FieldMapping{ToField("fromB")}, WithNoDirectDependency())
+	case 1: // a longer cycle: a -> b -> c -(data)-> a
+		a.AddInputWithOptions("c", []*FieldMapping{ToField("fromC")}, WithNoDirectDependency())
+	case 2: // no cycle: c additionally reads a's value over a data-only input
+		c.AddInputWithOptions("a", []*FieldMapping{ToField("fromA")}, WithNoDirectDependency())
+	}
+	wf.End().AddInput("c", ToField("out"))
+	r, err := wf.Compile(ctx)
+	if shape == 2 {
+		vassert(err == nil, "a data-only input that closes no cycle is accepted")
+		if err == nil {
+			_, rerr := r.Invoke(ctx, map[string]any{"in": 1})
+			vassert(rerr == nil, "and the workflow runs")
+		}
+		return
+	}
+	vassert(err != nil, "a cycle closed by a data-only input is rejected by Compile")
+}
